@@ -30,11 +30,12 @@ type UT struct{ Txt string }
 
 func (u *UT) UnmarshalText(b []byte) error { u.Txt = "T:" + string(b); return nil }
 
-// TKey is a map key type with UnmarshalText / MarshalText.
-type TKey string
+// TKey is a map key type with UnmarshalText / MarshalText. It is a struct, not a string kind:
+// encoding/json uses the string value of string-kind keys directly and never calls MarshalText on them.
+type TKey struct{ K string }
 
-func (k *TKey) UnmarshalText(b []byte) error { *k = TKey("K:" + string(b)); return nil }
-func (k TKey) MarshalText() ([]byte, error)  { return []byte(strings.TrimPrefix(string(k), "K:")), nil }
+func (k *TKey) UnmarshalText(b []byte) error { k.K = "K:" + string(b); return nil }
+func (k TKey) MarshalText() ([]byte, error)  { return []byte(strings.TrimPrefix(k.K, "K:")), nil }
 
 var numLit = map[string]string{
 	"z": "0", "nz": "-0", "p7": "7", "p9": "9", "p12": "12", "n3": "-3", "n200": "-200", "p200": "200", "p300": "300", "p40000": "40000", "p70000": "70000",
@@ -169,7 +170,7 @@ var leafTypes = map[string]reflect.Type{
 
 var keyTypes = map[string]reflect.Type{
 	"str": reflect.TypeOf(""), "int": reflect.TypeOf(int(0)), "i8": reflect.TypeOf(int8(0)), "u8": reflect.TypeOf(uint8(0)),
-	"i64": reflect.TypeOf(int64(0)), "u32": reflect.TypeOf(uint32(0)), "txt": reflect.TypeOf(TKey("")),
+	"i64": reflect.TypeOf(int64(0)), "u32": reflect.TypeOf(uint32(0)), "txt": reflect.TypeOf(TKey{}),
 }
 
 func typeSig(t map[string]interface{}) string {
@@ -342,7 +343,7 @@ func buildKey(kind, k string) reflect.Value {
 	case "str":
 		return reflect.ValueOf(k)
 	case "txt":
-		return reflect.ValueOf(TKey("K:" + k))
+		return reflect.ValueOf(TKey{K: "K:" + k})
 	}
 	return parseNum(rt, k)
 }
@@ -361,6 +362,10 @@ func build(t, v map[string]interface{}) reflect.Value {
 	out := reflect.New(rt).Elem()
 	switch k {
 	case "iface":
+		if g == "i" {
+			out.Set(build(rec(v["t"]), rec(v["v"])))
+			break
+		}
 		x := buildGeneric(v)
 		if x != nil {
 			out.Set(reflect.ValueOf(x))
